@@ -478,18 +478,6 @@ def enc_states(d):
     return out
 
 
-def shared_accepted(d, name):
-    """the input class of known finding F-C19-shared-tags-list: an Error machine, the state is not declared
-    accepted but was handed the same `tags=` list object as a state declared accepted=True"""
-    s = next((x for x in d['states'] if x['name'] == name), None)
-    if s is None or 'Error' not in d['feats'] or not s.get('tags_ref') or s.get('tags') is None:
-        return False
-    if 'accepted' in eff_tags(s):
-        return False
-    return any(o is not s and o.get('tags_ref') == s['tags_ref'] and o.get('tags') is not None and o.get('accepted')
-               for o in d['states'])
-
-
 def enc_feats(d):
     return [len(d['feats'])] + [MIXINS.index(f) for f in d['feats']]
 
